@@ -608,6 +608,9 @@ def run(ctx):
         near_rng = _random.Random(sub_rng.getrandbits(64))      # own generator: the streams above are unchanged
         near2_stream(ctx, wd, near_rng, 2 if quick else 10, coll, stats)
         refusal_tie(ctx, wd, near_rng, 3 if quick else 20, stats)
+        from harness import c02_names
+        names_rng = _random.Random(near_rng.getrandbits(64))    # own generator: the streams above are unchanged
+        c02_names.stream(ctx, wd, names_rng, 30 if quick else 200, 3, coll, model_side, stats, observe_accepted, crash_site)
         bad = eval_checkers(ctx, coll, stats)
         model_side_tie(ctx, model_side, stats)
     finally:
